@@ -248,6 +248,10 @@ Section Names.
     bind (compile f c) (fun a => bind (cblock f cns) (fun t => bind (cblock f al) (fun e =>
       ret (a ++ I [opPopJumpForwardIfFalse; (nlen t + 4)%N] ++ t ++ I [opJumpForward; (nlen e + 2)%N] ++ e)))).
   Proof. reflexivity. Qed.
+  Lemma compile_NIf1 f c cns : compile (S f) (NIf c cns None) =
+    bind (compile f c) (fun a => bind (cblock f cns) (fun t => bind (ret (I [opNil])) (fun e =>
+      ret (a ++ I [opPopJumpForwardIfFalse; (nlen t + 4)%N] ++ t ++ I [opJumpForward; (nlen e + 2)%N] ++ e)))).
+  Proof. reflexivity. Qed.
   (* compileForCondition *)
   Lemma compile_NFor_cond f e body : compile (S f) (NFor (Some (embed names e)) None None body) =
     bind open_block (fun _ => bind (push_loop false) (fun _ =>
@@ -344,7 +348,7 @@ Section Names.
   Proof.
     induction f as [f IH] using lt_wf_ind.
     intros s k tabs t ks loops top Hh Hk Hwf Htop Hg Ht.
-    destruct s as [e|i e|e|c tb eb|c b].
+    destruct s as [e|i e|e|c tb eb|c tb|c b].
     - (* x := e *)
       cbn [embed_stmt stmt_code next_k wf_stmt sheight] in *.
       apply andb_true_iff in Hwf. destruct Hwf as [Hto Hwf]. rewrite (Htop Hto) in *.
@@ -389,6 +393,19 @@ Section Names.
       unfold bind at 1. rewrite (compile_exp k tabs t ks loops c (S f) Hg Hk Ht Hwc ltac:(lia)), Ec. cbn [fst snd].
       unfold bind at 1. rewrite Hc1. unfold bind at 1. rewrite Hc2.
       unfold ret. rewrite !nlen_I, <- !app_assoc, !I_app. cbn [I map app]. reflexivity.
+    - (* if c { tb } *)
+      rewrite wf_SIf1 in Hwf. apply andb_true_iff in Hwf. destruct Hwf as [Hwc Hwt].
+      rewrite sheight_SIf1 in Hh. destruct f as [|f]; [lia|]. cbn [next_k] in *.
+      assert (Hst : stmt_ok f) by (apply IH; lia).
+      rewrite embed_SIf1, code_SIf1, compile_NIf1.
+      destruct (cexp (length ks) c) as [cc kc] eqn:Ec.
+      destruct (cblock_good f Hst tb k tabs t (ks ++ kc) loops ltac:(lia) Hk Hwt Hg Ht) as [tabs1 [Hc1 [Hg1 Hx1]]].
+      rewrite app_length in Hc1.
+      destruct (block_code k (length ks + length kc) tb) as [ct kt] eqn:Et. cbn [fst snd] in Hc1.
+      exists tabs1. split; [|split; [exact Hg1|exact Hx1]].
+      unfold bind at 1. rewrite (compile_exp k tabs t ks loops c (S f) Hg Hk Ht Hwc ltac:(lia)), Ec. cbn [fst snd].
+      unfold bind at 1. rewrite Hc1. unfold bind at 1. unfold ret at 1.
+      unfold ret. rewrite !nlen_I, <- !app_assoc, !I_app. cbn [I map app length nlenN]. reflexivity.
     - (* for c { b } *)
       rewrite wf_SWhile in Hwf. apply andb_true_iff in Hwf. destruct Hwf as [Hwc Hwb].
       rewrite sheight_SWhile in Hh. destruct f as [|f]; [lia|]. cbn [next_k] in *.
@@ -423,7 +440,7 @@ Section Names.
   Proof.
     unfold collect_decls. induction l as [|s r IH]; intros k; [reflexivity|].
     rewrite embed_stmts_cons.
-    destruct s as [e|i e|e|c t e|c b]; cbn [embed_stmt]; try apply IH.
+    destruct s as [e|i e|e|c t e|c t|c b]; cbn [embed_stmt]; try apply IH.
     destruct e; cbn [embed]; apply IH.
   Qed.
 
